@@ -496,36 +496,23 @@ func QuoteString(r *rand.Rand, s string, sp *Spelling) string {
 	return b.String()
 }
 
-// IntString spells an integer literal in decimal, hexadecimal or octal.
+// IntString spells an integer literal in decimal, hexadecimal or octal; site labels the use
+// ("key-int" or "list-index") in the recorded spelling.
 func IntString(r *rand.Rand, l Lit, sp *Spelling, site string) string {
-	var s string
-	defer func() {
-		for b := range sp.Bases {
-			if !strings.Contains(b, ":") {
-				delete(sp.Bases, b)
-				sp.Bases[site+":"+b] = true
-			}
-		}
-	}()
+	var s, base string
 	switch r.IntN(4) {
 	case 0:
-		s = "0x" + strconv.FormatUint(l.Mag, 16)
-		sp.Bases["hex"] = true
+		s, base = "0x"+strconv.FormatUint(l.Mag, 16), "hex"
 	case 1:
 		if r.IntN(2) == 0 {
-			s = "0X" + strings.ToUpper(strconv.FormatUint(l.Mag, 16))
+			s, base = "0X"+strings.ToUpper(strconv.FormatUint(l.Mag, 16)), "hex"
 		} else {
-			s = "0" + strconv.FormatUint(l.Mag, 8) // "00" for zero is a valid octal spelling
-		}
-		if strings.HasPrefix(s, "0X") {
-			sp.Bases["hex"] = true
-		} else {
-			sp.Bases["oct"] = true
+			s, base = "0"+strconv.FormatUint(l.Mag, 8), "oct" // "00" for zero is a valid octal spelling
 		}
 	default:
-		s = strconv.FormatUint(l.Mag, 10)
-		sp.Bases["dec"] = true
+		s, base = strconv.FormatUint(l.Mag, 10), "dec"
 	}
+	sp.Bases[site+":"+base] = true
 	if l.Neg {
 		sp.Negative = true
 		s = "-" + s
